@@ -293,7 +293,8 @@ func c05Check(c c05Case) (string, []c05Verdict) {
 	}
 	implDir := c.Pkgs[len(c.Pkgs)-1]
 	verdicts := c05Expected(ld, proggen.Module+"/"+implDir, c.Sources, implDir)
-	why := c05CompareVerdicts(verdicts, res.Diags)
+	// the test variant of the implementing package repeats the regular files' diagnostics
+	why := c05CompareVerdicts(verdicts, engine.CollapseVariants(res.Diags))
 	return why, verdicts
 }
 
@@ -884,6 +885,16 @@ func c05Program(rt *rapid.T) (c05Case, map[string]int) {
 		fmt.Fprintf(&fb, "// @implements %s.Sealed\ntype B3 struct{}\n\nfunc (B3) Open() {}\n", ipSpec.name)
 		c.Sources["impl/m_blank.go"] = fb.String()
 		classes["file binding the interface package by a blank import"]++
+	}
+	// an in-package test file (not analysed) that imports the interface package:
+	// its import binds nothing in the other files
+	if g.chance("testFileImports", 30) {
+		imp := fmt.Sprintf("import _ \"vf.test/m/%s\"\n", ipSpec.dir)
+		if g.chance("testFileNamedImport", 50) {
+			imp = fmt.Sprintf("import %s \"vf.test/m/%s\"\n\nvar _ %s.Tok\n", ipSpec.name, ipSpec.dir, ipSpec.name)
+		}
+		c.Sources["impl/impl_test.go"] = "package impl\n\n" + imp
+		classes["in-package test file imports the interface package"]++
 	}
 	if ipSpec.name != ipSpec.dir[strings.LastIndex(ipSpec.dir, "/")+1:] {
 		classes["interface package name differs from its directory"]++
